@@ -602,3 +602,5 @@ func refRange(keys []string, start, end string) []string {
 	}
 	return out
 }
+
+type protoComparison = proto.KeyComparisonType
